@@ -64,7 +64,7 @@ PROPS["C04"] = {
 }
 
 PROPS["C05"] = {
-    "id": "C05", "level": "fault_enumeration",
+    "id": "C05", "level": "fault_enumeration", "death_is_violation": True,
     "rule": "generated single-actor histories in which every position of the panicking message inside a queued window, panics in "
             "Initialized/Started of any incarnation, repeated failures inside the restart budget and failures during the replay of the "
             "restart buffer occur; user deliveries (incarnation, id) must equal the reference model's (no loss, duplication, reordering, "
@@ -79,7 +79,7 @@ PROPS["C05"] = {
 }
 
 PROPS["C06"] = {
-    "id": "C06", "level": "fault_enumeration",
+    "id": "C06", "level": "fault_enumeration", "death_is_violation": True,
     "rule": "complete enumeration of MaxRestarts 0..4 x 8 placements of the budget-exhausting panic (un-gated, first/middle/last of a queued "
             "window, during replay, in Started, in Initialized, in Started after a restart) x 5 kinds of content queued behind it x {0,2} children, "
             "plus generated histories; restarts <= budget, exactly one ActorMaxRestartsExceededEvent, actor and children stopped (children first) "
